@@ -33,6 +33,8 @@ class LawfulNum (α : Type) [NumOps α] [Lean.Grind.Field α] where
   rpow_one : ∀ a : α, Pos a → NumOps.rpow a 1 = a
   rpow_mul : ∀ (a : α) (e₁ e₂ : Rat), Pos a → NumOps.rpow (NumOps.rpow a e₁) e₂ = NumOps.rpow a (e₁ * e₂)
   mul_rpow : ∀ (a b : α) (e : Rat), Pos a → Pos b → NumOps.rpow (a * b) e = NumOps.rpow a e * NumOps.rpow b e
+  /-- for integer exponents the product rule holds for every base (also negative ones) -/
+  mul_rpow_int : ∀ (a b : α) (n : Int), NumOps.rpow (a * b) (n : Rat) = NumOps.rpow a (n : Rat) * NumOps.rpow b (n : Rat)
   -- order
   lt_irrefl : ∀ a : α, NumOps.lt a a = false
   lt_asymm : ∀ a b : α, NumOps.lt a b = true → NumOps.lt b a = false
@@ -303,5 +305,111 @@ theorem cmpValues_eq_iff (x y : α) : cmpValues x y = .eq ↔ x = y := by
 theorem cmpValues_cases (x y : α) : cmpValues x y = .lt ∨ cmpValues x y = .eq ∨ cmpValues x y = .gt := by
   unfold cmpValues
   cases lt x y <;> cases lt y x <;> simp
+
+
+/-- the physical value of a sum is the sum of the physical values -/
+theorem add_phys_lem (tbl : Table α) (hp : PosTbl tbl) (a b r : Quantity α) (h : qadd tbl a b = .ok r) :
+    phys tbl r = phys tbl a + phys tbl b := by
+  unfold qadd at h
+  split at h
+  · rename_i hz; cases h
+    have := (isZero_iff a).mp hz
+    unfold phys; rw [this]; grind
+  · split at h
+    · rename_i hz; cases h
+      have := (isZero_iff b).mp hz
+      unfold phys; rw [this]; grind
+    · split at h
+      · rename_i he; cases h
+        unfold phys
+        simp only [add_eq]
+        rw [prodW_of_unitEq tbl hp _ _ he]; grind
+      · simp only at h
+        split at h
+        · rename_i a' b' ha hb
+          cases h
+          have e1 := convert_phys' tbl hp a a' _ ha
+          have e2 := convert_phys' tbl hp b b' _ hb
+          unfold phys at *
+          simp only [add_eq]
+          grind
+        · cases h
+        · cases h
+
+theorem sub_phys_lem (tbl : Table α) (hp : PosTbl tbl) (a b r : Quantity α) (h : qsub tbl a b = .ok r) :
+    phys tbl r = phys tbl a - phys tbl b := by
+  unfold qsub at h
+  split at h
+  · rename_i hz; cases h
+    have := (isZero_iff a).mp hz
+    unfold phys Quantity.neg; rw [this]; simp only [neg_eq]; grind
+  · split at h
+    · rename_i hz; cases h
+      have := (isZero_iff b).mp hz
+      unfold phys; rw [this]; grind
+    · split at h
+      · rename_i he; cases h
+        unfold phys
+        simp only [sub_eq]
+        rw [prodW_of_unitEq tbl hp _ _ he]; grind
+      · simp only at h
+        split at h
+        · rename_i a' b' ha hb
+          cases h
+          have e1 := convert_phys' tbl hp a a' _ ha
+          have e2 := convert_phys' tbl hp b b' _ hb
+          unfold phys at *
+          simp only [sub_eq]
+          grind
+        · cases h
+        · cases h
+
+/-! ### powers, expression trees -/
+
+theorem rpow_one_base (e : Rat) : rpow (1 : α) e = 1 := by
+  have h0 : rpow (1 : α) 0 = 1 := rpow_zero 1 pos_one
+  have := rpow_mul (1 : α) 0 e pos_one
+  rw [h0] at this
+  rw [this]
+  have : (0 : Rat) * e = 0 := by grind
+  rw [this, h0]
+
+theorem w_power (tbl : Table α) (hp : PosTbl tbl) (f : Factor) (r : Rat) :
+    w tbl { f with exp := f.exp * r } = rpow (w tbl f) r := by
+  unfold w
+  simp only
+  rw [rpow_mul _ _ _ (pos_base tbl hp f)]
+
+theorem prodW_power (tbl : Table α) (hp : PosTbl tbl) (u : Unit) (r : Rat) :
+    prodW tbl (Unit.power u r) = rpow (prodW tbl u) r := by
+  induction u with
+  | nil => simp [Unit.power, prodW, rpow_one_base]
+  | cons f u ih =>
+    simp only [Unit.power, List.map_cons, prodW] at ih ⊢
+    rw [w_power tbl hp, ih, mul_rpow _ _ _ (pos_w tbl hp f) (pos_prodW tbl hp u)]
+
+/-- denotation of an expression by exact dimensional arithmetic: numbers are themselves, a unit is its
+conversion factor to base units (prefix factor × base factor, from the direct definitions), operators are
+the field operations -/
+def den (tbl : Table α) : QExpr α → α
+  | .num v => v
+  | .unit f => w tbl f
+  | .neg a => - den tbl a
+  | .add a b => den tbl a + den tbl b
+  | .sub a b => den tbl a - den tbl b
+  | .mul a b => den tbl a * den tbl b
+  | .div a b => den tbl a / den tbl b
+  | .pow a r => rpow (den tbl a) r
+
+/-- every power has an integer exponent or a base with positive magnitude -/
+def PowOK (tbl : Table α) : QExpr α → Prop
+  | .num _ => True
+  | .unit _ => True
+  | .neg a => PowOK tbl a
+  | .add a b => PowOK tbl a ∧ PowOK tbl b
+  | .sub a b => PowOK tbl a ∧ PowOK tbl b
+  | .mul a b => PowOK tbl a ∧ PowOK tbl b
+  | .div a b => PowOK tbl a ∧ PowOK tbl b
+  | .pow a r => PowOK tbl a ∧ ((∃ n : Int, r = (n : Rat)) ∨ ∀ x, evalQ tbl a = .ok x → Pos x.value)
 
 end NumbatModel.Qty
